@@ -51,7 +51,8 @@ def module_text(prop, harnesses, prelude="", extra=""):
     body = prelude
     for h in harnesses:
         body += render(h, "verif_stub_format") + "\n"
+    loc = "  pub fn verif_stub_loc(e: MechError) -> MechError { e }\n" if any(getattr(h, "stub_loc", False) for h in harnesses) else ""
     return ("#[allow(warnings)]\npub mod verif_%s {\n  use super::*;\n  use std::mem::forget;\n"
             "  pub fn verif_stub_format(_a: std::fmt::Arguments<'_>) -> String { String::new() }\n"
-            "  pub fn verif_stub_loc(e: MechError) -> MechError { e }\n%s\n%s\n}\n"
-            % (prop.lower(), body, extra))
+            "%s%s\n%s\n}\n"
+            % (prop.lower(), loc, body, extra))
